@@ -836,3 +836,31 @@ T('C13', 'write-only-record-reassigned-per-call', [(INF, _INIT, _INIT + "       
                                                     (INF, "        self.groups = defaultdict(lambda: [])\n",
                                                      "        self.last_total = total\n        self.groups = defaultdict(lambda: [])\n")])
 
+# ------------------------------------------------------------------ round 14: the rules added for its pairs
+K('C16', 'factor-graph-total-truncated', [(FG, "        self.total = total\n", "        self.total = int(total)\n")], 'total-stored')
+T('C16', 'factor-graph-total-as-float', [(FG, "        self.total = total\n", "        self.total = float(total)\n")])
+_MID = "        rho=(rhomin+rhomax)/2\n"
+K('C07', 'rho-search-returns-the-midpoint-on-a-tolerance', [(CDP, _MID, _MID + "        if rhomax-rhomin<1e-9: return rho\n")], 'search-termination')
+T('C07', 'rho-search-returns-the-sound-end-at-the-fixed-point', [(CDP, _MID, _MID + "        if not rhomin<rho<rhomax: return rhomin\n")])
+K('C07', 'rho-search-returns-the-midpoint-at-the-fixed-point', [(CDP, _MID, _MID + "        if not rhomin<rho<rhomax: return rho\n")], 'search-termination')
+_DV = "        bins = [range(n+1) for n in self.domain.shape]\n"
+K('C15', 'empty-record-set-as-a-flat-vector', [(DS, _DV, "        if self.records == 0:\n            ans = np.zeros(self.domain.size())\n            return ans.flatten() if flatten else ans\n" + _DV)], 'histogram')
+T('C15', 'empty-record-set-as-a-zero-table', [(DS, _DV, "        if self.records == 0:\n            ans = np.zeros(self.domain.shape)\n            return ans.flatten() if flatten else ans\n" + _DV)])
+K('C09', 'public-floor-with-the-estimate-first', [(PI, "        return max(1, estimate)\n", "        return max(estimate, 1)\n")], 'floor-and-default')
+K('C09', 'setup-floor-with-the-estimate-first', [(INF, "                total = max(1, estimate)\n", "                total = max(estimate, 1)\n")], 'floor-and-default')
+T('C09', 'setup-floor-as-a-float', [(INF, "                total = max(1, estimate)\n", "                total = max(1.0, estimate)\n")])
+_MSG = "            messages[(i,j)] = tau.logsumexp(sep)\n"
+for _p in ('C01',):          # C10 trusts C01 for what belief_propagation does with the mask
+    K(_p, 'no-message-over-an-empty-separator', [(GM, _MSG, "            if not self.sep_axes[(i,j)]:\n                continue\n" + _MSG)], 'bp-equations')
+    T(_p, 'scalar-message-over-an-empty-separator', [(GM, _MSG, "            if not self.sep_axes[(i,j)]:\n                messages[(i,j)] = tau.logsumexp()\n            else:\n    " + _MSG)])
+_EXP0 = "    def exp(self, out=None):\n"
+_EXPB = "        if out is None:\n            return Factor(self.domain, np.exp(self.values))\n        np.exp(self.values, out=out.values)\n"
+_EXPN = "        values = np.minimum(self.values, %s)\n        if out is None:\n            return Factor(self.domain, np.exp(values))\n        np.exp(values, out=out.values)\n"
+K('C14', 'exponent-capped-at-the-float32-range', [(F, _EXPB, _EXPN % "np.log(np.finfo(np.float32).max)")], 'exp-form')
+T('C14', 'exponent-capped-at-the-double-range', [(F, _EXPB, _EXPN % "np.log(np.finfo(float).max)")])
+_WARM = ("        if self.warm_start and hasattr(self, 'model'):\n            model.potentials.combine(self.model.potentials)\n        self.model = model  \n")
+_CK0 = "        self.history = []\n"
+K('C13', 'checkpoint-used-whenever-it-exists', [(INF, _CK0, _CK0 + "        self.checkpoint = None\n"),
+    (INF, _WARM, "        if self.checkpoint is not None:\n            model.potentials.combine(self.checkpoint.potentials)\n        self.model = model\n        if self.warm_start:\n            self.checkpoint = model\n")], 'A2-per-call-state')
+T('C13', 'checkpoint-used-only-under-the-flag', [(INF, _CK0, _CK0 + "        self.checkpoint = None\n"),
+    (INF, _WARM, "        if self.warm_start and self.checkpoint is not None:\n            model.potentials.combine(self.checkpoint.potentials)\n        self.model = model\n        self.checkpoint = model\n")])
